@@ -254,7 +254,7 @@ def run_case(case):
                             counters["cleanup_skipped_on_close_checked"] += 1
                             if c_first:
                                 problem = ("cleanup-ran-on-close", f"log {lg}", script)
-                        elif any(e[0] == "B" and e[1] == "returned" for e in lg):
+                        elif not body_closed and any(e[0] == "B" and e[1] == "returned" for e in lg):
                             counters["cleanup_once_checked"] += 1
                             if variant in ("fw-callable",) or variant.startswith("cw"):
                                 if inst != 1:
